@@ -3,7 +3,7 @@
 proof:   coq/C08/Props.v over coq/Fmt/{Ast,Print,Parse,Roundtrip}.v: AST + printer model mirroring
          src/format/formatter.rs arm by arm for the expression / simple-statement core (token level), an
          executable fuelled model of the precedence ladder of crates/incan_syntax/src/parser/expr.rs, and the
-         round-trip theorem parse (print e ++ rest) = (defloat e, rest) for every ladder-well-formed e.
+         round-trip theorem parse (print e ++ rest) = (defloat e, rest) for every ladder-well-formed e (`::` slices included).
 tie:     hand model + correspondence: the model parser runs (vm_compute inside coqc) on the REAL lexer's tokens
          of generated core programs and must produce the REAL parser's AST; the model printer applied to that AST
          must produce the REAL lexer's tokens of the REAL formatter's output.
@@ -240,8 +240,6 @@ class Gen:
         s = self.chance(0.5)
         e = self.chance(0.5)
         st = self.chance(0.4)
-        if st and not e and "colon-colon" not in risky:
-            e = True
         self.use("Slice.start:%s" % s)
         self.use("Slice.end:%s" % e)
         self.use("Slice.step:%s" % st)
@@ -252,7 +250,7 @@ class Gen:
         if e:
             out += self.expr(d - 1, 0, risky)
         if st:
-            out += (" :" if not e else ":") + self.expr(d - 1, 0, risky)
+            out += ((" :" if self.chance(0.5) else ":") if not e else ":") + self.expr(d - 1, 0, risky)   # `[a::s]` and `[a: :s]`
         elif self.chance(0.1) and e:
             out += ":"
         return out + "]"
@@ -692,7 +690,7 @@ class Gen:
 
 RISKY = ["fmt-float", "fmt-mut-param", "fmt-type-params", "fmt-decorator-type-arg", "fmt-tuple-type", "fmt-unit-type",
          "fmt-closure", "fmt-if-expr", "fmt-qualified-pattern", "fmt-guard", "fmt-newtype-methods", "fmt-fstring-escape",
-         "fmt-bytes-escape", "fmt-docstring-escape", "colon-colon", "fmt-compound-desugar"]
+         "fmt-bytes-escape", "fmt-docstring-escape", "fmt-compound-desugar"]
 
 
 def program(rng, n_decls, p_risky=0.25):
@@ -707,7 +705,7 @@ def program(rng, n_decls, p_risky=0.25):
             kind = "newtype"
         elif risky and risky[0] == "fmt-docstring-escape":
             kind = "docstring"
-        elif risky and risky[0] in ("fmt-type-params", "fmt-mut-param", "fmt-if-expr", "fmt-compound-desugar", "fmt-guard", "fmt-qualified-pattern", "colon-colon", "fmt-closure"):
+        elif risky and risky[0] in ("fmt-type-params", "fmt-mut-param", "fmt-if-expr", "fmt-compound-desugar", "fmt-guard", "fmt-qualified-pattern", "fmt-closure"):
             kind = "function"
         lines = g.decl(kind, risky)
         if lines and lines[0].startswith('"') and i > 0 and False:
@@ -768,11 +766,8 @@ PROPOSED_C08 = [
         "const B: bytes = b\"a\\\"b\"\n", "`\"` and `\\` inside byte strings are printed raw",
         "fix candidate", "yes: exclude b'\"' and b'\\\\' from the printable range in the Bytes arm"),
     _kf("C08", "fmt-docstring-escape", "a module docstring whose text contains a backslash or '\"\"\"', or starts/ends with '\"'",
-        "\"\"\"a \\\\ b\"\"\"\n", "module docstrings are printed raw between triple quotes (escapes are re-interpreted / the quotes merge)",
+        "\"\"\"a\\\\nb\"\"\"\n", "module docstrings are printed raw between triple quotes (escapes are re-interpreted / the quotes merge)",
         "fix candidate", "small: escape backslashes and quotes in format_docstring"),
-    _kf("C08", "colon-colon", "Expr::Slice with end = None and step = Some",
-        F + "    z = x[1: :2]\n", "`x[a: :s]` is printed `x[a::s]`; `::` is one token (C05's colon-colon defect) and the output does not parse",
-        "same root cause as C05 colon-colon (lexer)", "yes on the printer side: write \" :\" when end is absent"),
     _kf("C08", "fmt-compound-desugar", "a Field/IndexAssignment synthesised by the parser from `t op= rhs` (value = Binary(t, op, rhs) sharing the target's span) whose rhs binds no tighter than op",
         F + "    a.b *= 1 + 2\n", "`a.b *= 1 + 2` is parsed into a.b = a.b * (1 + 2) without a Paren node and printed `a.b = a.b * 1 + 2`",
         "root cause is the parser's desugaring (the AST is not ladder-well-formed); a parser change alters emitted code pinned by snapshots", "no"),
@@ -790,7 +785,7 @@ PROPOSED_C09 = [
     _kf("C09", "fmt-arm-trailing-space", "one line ending in \"=> \" per match arm whose body is a block",
         "def f(n: int) -> int:\n    match n:\n        case 0:\n            return 1\n        _ => 0\n", "block-bodied match arms are printed `pattern => ` + newline: trailing whitespace",
         "fix candidate", "yes: write \" =>\" and add the space only before an expression body"),
-    _kf("C09", "fmt-not-reparsable", "the file contains a construct of one of C08's listed classes whose printed form does not re-parse or re-parses differently (fmt-closure, fmt-if-expr, fmt-qualified-pattern, fmt-guard, fmt-newtype-methods, fmt-fstring-escape, fmt-bytes-escape, fmt-docstring-escape, colon-colon, fmt-compound-desugar, fmt-match-operand, fmt-decorator-type-arg)",
+    _kf("C09", "fmt-not-reparsable", "the file contains a construct of one of C08's listed classes whose printed form does not re-parse or re-parses differently (fmt-closure, fmt-if-expr, fmt-qualified-pattern, fmt-guard, fmt-newtype-methods, fmt-fstring-escape, fmt-bytes-escape, fmt-docstring-escape, fmt-compound-desugar, fmt-match-operand, fmt-decorator-type-arg)",
         "type UserId = newtype int:\n    def get(self) -> int:\n        return 1\n", "fmt(fmt(x)) is an error / differs and `--check` after `fmt` fails exactly when fmt(x) is outside the parser's language (inherits C08's findings; an `if` expression also leaves a trailing blank)",
         "see the C08 entries", "see the C08 entries"),
 ]
@@ -1157,8 +1152,6 @@ def core_programs(chk, n):
         if r < 0.12:
             risky = ("fmt-float",)
         elif r < 0.2:
-            risky = ("colon-colon",)
-        elif r < 0.26:
             risky = ("fmt-compound-desugar",)
         line = g.stmt(0, 4, risky)
         if len(line) != 1 or len(line[0]) > 160:
@@ -1267,7 +1260,7 @@ def run(chk):
         "declarations, types, patterns are covered by the oracle on the real code only",
         "parser_output_wf (every AST the real parser produces is ladder_wf) is NOT a theorem: it is checked on each tie case and is refuted at statement "
         "level by the parser's desugaring of `t op= rhs` (C08_parser_output_wf_refuted)",
-        "token-level model: adjacent printed tokens are assumed not to fuse in the lexer except `:` `:` (modelled); `t.0.1`/`5.0` are excluded by ladder_wf (dot_safe)",
+        "token-level model: adjacent printed tokens are assumed not to fuse in the lexer except `:` `:` (modelled as the `::` token, which the parser accepts since /repo 974c053); `t.0.1`/`5.0` are excluded by ladder_wf (dot_safe)",
     ]
     known = load_findings(chk, "C08", PROPOSED_C08)
     res = chk.proof_stage("C08", allow_axioms=())
